@@ -3,7 +3,7 @@ from .. import simprop
 
 ID = "C06"
 FAMILY = "C06"
-VARIANTS = ("asan",)
+VARIANTS = ("asan", "rel")      # rel: only to re-judge a case that UBSan stopped (simprop)
 BUDGET = {"quick": dict(examples=80000, seconds=55), "thorough": dict(examples=2000000, seconds=540)}
 NONTRIVIAL = {'reprioritised-waiter', 'c06-three-waiters'}
 PROFILES = [(4, 'queueing'), (1, 'mixed')]
